@@ -96,11 +96,11 @@ pub fn set_pending(desc: String) {
 /// Exit code of the recorder when the watchdog fired.
 pub const HANG_EXIT: i32 = 96;
 /// Start the watchdog: when the recorder makes no progress (no event, no history, no guarded call entered or left) for
-/// LMV_WATCHDOG_SECS seconds (default 60; a whole quick recording takes seconds), `<trace>.hang` is written and the
+/// LMV_WATCHDOG_SECS seconds (default 150; a whole quick recording takes seconds), `<trace>.hang` is written and the
 /// process exits with HANG_EXIT.
 pub fn start_watchdog(trace_path: &str) {
     let path = format!("{}.hang", trace_path);
-    let limit: u64 = std::env::var("LMV_WATCHDOG_SECS").ok().and_then(|x| x.parse().ok()).unwrap_or(60);
+    let limit: u64 = std::env::var("LMV_WATCHDOG_SECS").ok().and_then(|x| x.parse().ok()).unwrap_or(150);
     std::thread::spawn(move || {
         let mut last = BEAT.load(std::sync::atomic::Ordering::Relaxed);
         let mut idle = 0u64;
